@@ -28,6 +28,10 @@ import (
 	"go.6river.tech/mmmbbb/services"
 )
 
+// pushSelectMode is set at link time by buildsim.py: "rewritten" if the pusher's Receive
+// select was given a tape-ordered pre-poll, else "constraint".
+var pushSelectMode = "constraint"
+
 type pushReq struct {
 	id       int
 	ack      string // synthetic ack id: push|sub|msg
@@ -287,6 +291,27 @@ func runPush(t *testing.T, tape *Tape, w *World, variant string, steps int, out 
 			p.delay = []time.Duration{300 * time.Millisecond, 1200 * time.Millisecond, 5 * time.Second}[tape.Intn(3)]
 		}
 	}
+	if pushSelectMode == "rewritten" {
+		actions.VerifSelectOrder = func(fast, slow, nack int) []int {
+			n := 0
+			for _, x := range []int{fast, slow, nack} {
+				if x > 0 {
+					n++
+				}
+			}
+			if n < 2 {
+				return nil // at most one ready case: the original select is already deterministic
+			}
+			r.Stats["push_select_two_ready"]++
+			order := []int{0, 1, 2}
+			for i := 2; i > 0; i-- {
+				j := tape.Intn(i + 1)
+				order[i], order[j] = order[j], order[i]
+			}
+			return order
+		}
+		defer func() { actions.VerifSelectOrder = nil }()
+	}
 	oldTransport := http.DefaultTransport
 	http.DefaultTransport = ps
 	defer func() { http.DefaultTransport = oldTransport }()
@@ -347,7 +372,7 @@ func runPush(t *testing.T, tape *Tape, w *World, variant string, steps int, out 
 			}
 			blocked := 0
 			for _, k := range keys {
-				if j := strings.Index(k, "@http-done#"); j >= 0 {
+				if j := strings.Index(k, "@http-done#"); j >= 0 && pushSelectMode != "rewritten" {
 					cls := int(k[j+len("@http-done#")] - '0')
 					others := [3]int{slow + nack, fast + nack, fast + slow}[cls]
 					if others > 0 {
